@@ -21,6 +21,8 @@ real-symmetric label-conserving Hamiltonian with offsets / duplicate terms / 3-b
            solution stays in the manifold, H psi lies in the tangent space, so VMF and both
            projector-splitting schemes must again reproduce expm (exactness property).
   order    P&C: observed order over two step halvings at fixed total time >= 3.5.
+  ps-order projector splitting on complete bonds WITH labels (not exact): observed order over two
+           halvings >= 1.5.  Known defect: one-site scheme is first order on branching trees.
   ps-any   TDVP-PS, interacting H, ANY (truncated) bond dimensions, real time: norm and energy
            conserved over a multi-step history; sector / labels kept (also imaginary time).
   chain    linear tree obtained with from_mps: tree result == chain (renormalizer.mps) result ==
@@ -50,7 +52,7 @@ NAME = {PS: "tdvp_ps", PS2: "tdvp_ps2", VMF: "tdvp_vmf", PC: "pc_tdrk4"}
 # relative error allowed vs expm for the schemes that are exact under the stated conditions.
 # local solver: expm_krylov stops when two iterates agree to allclose(rtol 1e-5, atol 1e-8); observed
 # errors are 1e-13..1e-9; VMF integrates with ivp_rtol 1e-7 / atol 1e-9 (observed <= 1e-6).
-TOL_EXACT = {PS: 2e-6, PS2: 2e-6, VMF: 2e-5}
+TOL_EXACT = {PS: 1e-5, PS2: 1e-5, VMF: 2e-5}
 TOL_VMF_DEFAULT = 2e-3      # default ivp_rtol=1e-5, ivp_atol=1e-8
 TOL_POLY = 1e-9             # P&C vs its own Taylor polynomial, no truncation
 TOL_SECTOR = 1e-9
@@ -113,6 +115,14 @@ def _tau(rng, hnorm, imag, lo=0.05, hi=1.5):
 
 KNOWN_CRASHES = ("evolve:qn2:normalize:raises-ValueError", "evolve:qn2:tdvp_ps2:raises-ValueError",
                  "evolve:aux:tdvp_ps2:raises-KeyError")
+
+
+def _branching(spec):
+    nch = [0] * len(spec["nodes"])
+    for nd in spec["nodes"]:
+        if nd["parent"] >= 0:
+            nch[nd["parent"]] += 1
+    return max(nch) >= 2
 
 
 def _ps2_tensors(spec):
@@ -192,7 +202,7 @@ def _hist_json(hist):
     return [dict(method=NAME[m], tau=[float(np.real(t)), float(np.imag(t))], normalize=bool(nz)) for (m, t, nz) in hist]
 
 
-def _ps_order_check(cx, key, ttno, h, t_in, method, tau, hn, err1, rep):
+def _ps_order_check(cx, key, ttno, h, t_in, method, tau, hn, err1, rep, branching=True):
     """non-trivial labels: projector splitting is second order, not exact.  Halve the step twice."""
     run = cx.run
     if hn > 0.7:
@@ -208,12 +218,31 @@ def _ps_order_check(cx, key, ttno, h, t_in, method, tau, hn, err1, rep):
             tt = tt.evolve(ttno, tau / n, normalize=False)
             cx.n += 1
         errs.append(float(np.linalg.norm(L.dense_ttns(tt) - ref) / np.linalg.norm(ref)))
-    run.count("ps-order:judged")
-    floor = 5e-7
+    run.count("ps-order:measured")
+    # the local solver stops at allclose(rtol 1e-5) between Krylov iterates: errors below ~1e-5 are
+    # solver noise and carry no order information
+    if errs[0] < 1e-5:
+        run.count("ps-order:exact")
+        return
     orders = [float(np.log2(errs[i] / errs[i + 1])) if errs[i + 1] > 0 else 99.0 for i in range(2)]
-    bad = (errs[1] > floor and orders[0] < 1.5) or (errs[2] > floor and orders[1] < 1.5) or errs[0] > 2.0 * hn ** 3 + 1e-6
-    if bad:
-        run.violation(f"evolve:{key}:not-second-order", rep(errors=errs, orders=orders, hnorm_dt=float(hn)))
+    overall = 0.5 * float(np.log2(errs[0] / errs[2])) if errs[2] > 0 else 99.0
+    info = dict(errors=errs, orders=orders, overall_order=overall, hnorm_dt=float(hn))
+    if errs[0] > 2.0 * hn ** 2 + 1e-5:
+        run.violation(f"evolve:{key}:not-second-order", rep(**info))
+        return
+    if errs[2] < 2e-5:
+        run.count("ps-order:inconclusive-near-solver-noise")
+        return
+    run.count("ps-order:judged")
+    if overall < 1.4:
+        if method is PS and branching and overall > 0.6:
+            # genuine defect of the pinned tree: _tdvp_ps_backward visits the children of a node in the
+            # same order as _tdvp_ps_forward instead of the reversed one, so the two half sweeps are not
+            # adjoint to each other and the composition is only first order on a tree with a branching
+            # node (the two-site variant uses reversed(...) and is second order)
+            run.violation("evolve:tdvp_ps:branching-tree:first-order", rep(**info))
+        else:
+            run.violation(f"evolve:{key}:not-second-order", rep(**info))
 
 
 def _evolve_checked(cx, fam, spec, ttno, h, lab, q, t, method, tau, normalize, tol, state0, hist, tight=True,
@@ -283,7 +312,7 @@ def _evolve_checked(cx, fam, spec, ttno, h, lab, q, t, method, tau, normalize, t
             thr = tol_override if tol_override is not None else tol[method]
             if err > thr:
                 if method in (PS, PS2) and ps_order and t_in is not None:
-                    _ps_order_check(cx, key, ttno, h, t_in, method, tau, hn, err, rep)
+                    _ps_order_check(cx, key, ttno, h, t_in, method, tau, hn, err, rep, branching=_branching(spec))
                 else:
                     run.violation(f"evolve:{key}:vs-expm", rep(rel_err=err, tol=thr, hnorm_dt=float(hn), normalize=bool(normalize)))
     # ---- sector & labels
@@ -438,6 +467,38 @@ def fam_order(cx):
         run.violation(f"order:pc_tdrk4:{'imag' if imag else 'real'}:slope<3.5",
                       cx.replay("order", spec, dict(np_seed=seed, qntot=np.asarray(q).tolist(), tensors=L.tensors_json(t0)),
                                 [dict(total=total, imag=imag, steps=[1, 2, 4])], dict(errors=errs, orders=orders)))
+
+
+def fam_ps_order(cx):
+    """projector splitting with labels on complete bonds is not exact: measure its order"""
+    rng, run = cx.rng, cx.run
+    fam = str(rng.choice(["star", "random", "mctdh", "linear"]))
+    # rejection-sample a model with an edge where "the complete side" depends on the label block
+    for _ in range(60):
+        spec = L.gen_spec(rng, cx.quick, max_dim=100, family=fam, qn_size=1, kinds=["spin", "elec", "me", "spin", "sho"])
+        q, cond = L.pick_sector(rng, spec)
+        if L.mixed_edges(spec, q):
+            break
+    else:
+        run.count("rejected:no-mixed-edge")
+        return
+    tree, bs, ttno, h, lab = _build(spec)
+    seed = int(rng.integers(1 << 30))
+    t0 = _random_state(tree, q, seed)
+    if t0 is None:
+        run.count("rejected:random-state")
+        return
+    hn = np.linalg.norm(h, 2)
+    method, _ = _pick(rng, spec, PS if rng.random() < 0.7 else PS2)
+    imag = bool(rng.random() < 0.4)
+    tau = _tau(rng, hn, imag, 0.25, 0.7)
+    state0 = dict(np_seed=seed, qntot=np.asarray(q).tolist(), tensors=L.tensors_json(t0))
+    hist = [(method, tau, False)]
+    key = f"ps-order:{NAME[method]}:{'imag' if imag else 'real'}"
+    run.count("call:" + key)
+    cx.distinct.add(("ps-order", len(spec["nodes"]), fam, NAME[method], imag))
+    rep = lambda **kw: cx.replay("ps-order", spec, state0, _hist_json(hist), kw)
+    _ps_order_check(cx, key, ttno, h, t0, method, tau, np.linalg.norm(h, 2) * abs(tau), None, rep, branching=_branching(spec))
 
 
 def fam_ps_any(cx):
@@ -671,7 +732,7 @@ def fam_aux(cx):
 
 
 FAMILIES = [("exact", fam_exact, 6), ("cluster", fam_cluster, 6), ("ps-any", fam_ps_any, 4), ("order", fam_order, 1),
-            ("chain", fam_chain, 3), ("aux", fam_aux, 2)]
+            ("ps-order", fam_ps_order, 2), ("chain", fam_chain, 3), ("aux", fam_aux, 2)]
 
 
 def search(run, rng, quick):
